@@ -184,7 +184,45 @@ func add(a, b string) string {
 	if oky && y.Sign() == 0 {
 		return a
 	}
+	// a + (x - a) = x (re-indexed quantifiers, see evalCtx.quant)
+	if strings.HasPrefix(b, "(- ") && strings.HasSuffix(b, " "+a+")") {
+		if x := b[3 : len(b)-len(a)-2]; balanced(x) {
+			return x
+		}
+	}
+	if strings.HasPrefix(a, "(- ") && strings.HasSuffix(a, " "+b+")") {
+		if x := a[3 : len(a)-len(b)-2]; balanced(x) {
+			return x
+		}
+	}
 	return sx("+", a, b)
+}
+
+// balanced: one complete term (an atom or one parenthesised expression).
+func balanced(s string) bool {
+	if s == "" {
+		return false
+	}
+	depth := 0
+	for i := 0; i < len(s); i++ {
+		switch s[i] {
+		case '(':
+			depth++
+		case ')':
+			depth--
+			if depth < 0 {
+				return false
+			}
+			if depth == 0 && i != len(s)-1 {
+				return false
+			}
+		case ' ':
+			if depth == 0 {
+				return false
+			}
+		}
+	}
+	return depth == 0
 }
 
 func sub(a, b string) string {
@@ -241,7 +279,11 @@ const preamble = `(set-option :produce-models true)
 (declare-fun blen (Int) Int)
 `
 
-const strrowAxiom = "(assert (forall ((s Str) (i Int)) (! (= (select (strrow s) i) (sat s i)) :pattern ((select (strrow s) i)))))\n"
+// xor with zero (only in queries whose script mentions bxor: extra quantified
+// axioms change how the incremental solver treats unrelated nonlinear goals)
+const bxorAxioms = "(assert (forall ((x Int)) (! (= (bxor 0 x) x) :pattern ((bxor 0 x)))))\n(assert (forall ((x Int)) (! (= (bxor x 0) x) :pattern ((bxor x 0)))))\n"
+
+const strrowAxiom ="(assert (forall ((s Str) (i Int)) (! (= (select (strrow s) i) (sat s i)) :pattern ((select (strrow s) i)))))\n"
 
 // ---- solver race ----
 
